@@ -118,7 +118,8 @@ class MetadataGenerator:
             for t in self.str_types_registry:
                 try:
                     value = t.to_internal_value(value)
-                except ValueError:
+                except (ValueError, OverflowError):
+                    # dateutil raises OverflowError if parsed date exceeds the largest valid C integer
                     continue
                 return t
             return StringLiteral({value})
